@@ -1500,6 +1500,9 @@ def _encode_host(host: str, validate_host: bool) -> str:
             # These checks should not happen in the
             # LRU to keep the cache size small
             host = ip.compressed
+            if sep and validate_host:
+                if not zone or not zone.isascii() or NOT_REG_NAME.search(zone.lower()):
+                    raise ValueError(f"Host {raw_ip}%{zone!s} has an invalid zone id")
             if ip.version == 6:
                 return f"[{host}%{zone}]" if sep else f"[{host}]"
             return f"{host}%{zone}" if sep else host
